@@ -15,9 +15,9 @@ def textCovered : List String :=
     | none => false)).map (·.1)
 
 theorem text_covered_types :
-    textCovered = ["AFSDB", "AVC", "CDNSKEY", "CNAME", "DHCID", "DNAME", "DNSKEY", "EID", "KEY", "KX", "LP", "MB", "MD", "MF", "MG",
+    textCovered = ["AFSDB", "AVC", "CDNSKEY", "CDS", "CNAME", "DHCID", "DLV", "DNAME", "DNSKEY", "DS", "EID", "KEY", "KX", "LP", "MB", "MD", "MF", "MG",
       "MINFO", "MR", "MX", "NIMLOC", "NINFO", "NS", "NSAPPTR", "OPENPGPKEY", "PTR", "PX", "RESINFO", "RKEY", "RP", "RT", "SPF", "SRV",
-      "SSHFP", "TALINK", "TLSA", "TXT", "ZONEMD"] := by
+      "SSHFP", "TA", "TALINK", "TLSA", "TXT", "X25", "ZONEMD"] := by
   decide
 
 theorem text_covered_all :
@@ -41,11 +41,13 @@ theorem fits_exist (P Q : List TStep) (h : matchPlans P Q = true) : ∃ vals val
     intro p q hk
     cases p <;> cases q <;> simp only [kindEq, Bool.false_eq_true] at hk
     · exact ⟨.n 0, by simp only [FieldWF]; exact Nat.two_pow_pos _⟩
+    · exact ⟨.n 0, by simp [FieldWF]⟩
     · exact ⟨.s (presentOf []), ⟨[], by decide, rfl⟩⟩
   fun_induction matchPlans P Q
   · exact ⟨_, _, Fits.txt [] (by simp)⟩
   · exact ⟨_, _, Fits.rest _ _ [65] ⟨by simp, by decide⟩⟩
-  · rename_i p q
+  · exact ⟨_, _, Fits.tok _ [65] ⟨by simp, by decide⟩⟩
+  · rename_i p q _
     obtain ⟨v, hv⟩ := hfield p q h
     exact ⟨_, _, Fits.last p q v h hv⟩
   · rename_i p u q u'
